@@ -199,6 +199,8 @@ pub struct Env {
     pub zombie_merge_possible: bool,
     /// delete_all_documents was called while uncommitted operations were pending in this transaction
     pub delete_all_while_dirty: bool,
+    /// (commit number j, SimDir log length when the commit call started, when it returned)
+    pub commit_spans: Vec<(u64, usize, usize)>,
 }
 #[derive(Default, Clone, Debug)]
 pub struct HistStats {
@@ -270,6 +272,7 @@ impl Env {
             skip_dirty_delete_all: false,
             zombie_merge_possible: false,
             delete_all_while_dirty: false,
+            commit_spans: vec![],
         };
         env.new_writer()?;
         Ok(env)
@@ -459,6 +462,10 @@ impl Env {
             }
             Op::Commit | Op::PrepareCommit => {
                 let payload = format!("c{}", self.commits + 1);
+                let span_start = match &self.dir {
+                    DirHandle::Sim(sd) => sd.log_len(),
+                    _ => 0,
+                };
                 let w = self.writer.as_mut().unwrap();
                 let o = if matches!(op, Op::Commit) {
                     let mut pc = w.prepare_commit().or_fail("prepare_commit_failed")?;
@@ -477,6 +484,9 @@ impl Env {
                 }
                 self.last_opstamp = Some(o);
                 self.commits += 1;
+                if let DirHandle::Sim(sd) = &self.dir {
+                    self.commit_spans.push((self.commits, span_start, sd.log_len()));
+                }
                 self.stats.commits += 1;
                 self.last_commit_opstamp = o;
                 self.committed = self.pending.clone();
